@@ -274,7 +274,13 @@ fn arb_domain_value(numbers: BoxedStrategy<String>, dups: bool) -> BoxedStrategy
 			2 => proptest::collection::vec((gen::arb_key(dups), inner), 0..=6).prop_map(RefValue::Obj),
 		]
 	});
-	let s = prop_oneof![8 => tree, 1 => wide.clone(), 1 => proptest::collection::vec(wide, 1..4).prop_map(RefValue::Arr)];
+	let large = gen::arb_large_value(dups).prop_map(|v| {
+		gen::map_numbers(v, &|n| {
+			let fits = n.parse::<i64>().is_ok() || n.parse::<u64>().is_ok() || (n.contains(['.', 'e', 'E']) && n.parse::<f64>().map(|f| f.is_finite()).unwrap_or(false));
+			if fits { n } else { "2.5".to_string() }
+		})
+	});
+	let s = prop_oneof![8 => tree, 1 => wide.clone(), 1 => proptest::collection::vec(wide, 1..4).prop_map(RefValue::Arr), 1 => large];
 	if dups {
 		s.boxed()
 	} else {
